@@ -223,6 +223,7 @@ type delivery struct {
 	panicMsg string
 	invoked  int
 	sig      string
+	captured []byte // the application data of the target's prepare (what malformed data was derived from)
 }
 
 type runner struct {
@@ -367,7 +368,12 @@ func (r *runner) onP2(c *recorder, kind string, ctx context.Context, bac *tm.Bus
 		}
 		b = r.absBid(bac.BranchId)
 		if d != nil {
-			want, _ := actionContextOf(r.dataFor(d))
+			ref := r.dataFor(d)
+			if d.st.Data != "captured" && d.st.Data != "empty" {
+				// malformed data: the only context the user's method may legitimately see is the captured one
+				ref = d.captured
+			}
+			want, _ := actionContextOf(ref)
 			ctxeq = jsonEq(bac.ActionContext, want)
 		}
 	}
@@ -486,6 +492,7 @@ func (r *runner) deliver(st step, idx int) {
 		dsig = "malformed:" + m.name
 	}
 	d.data = data
+	d.captured = captured
 	d.sig = fmt.Sprintf("%s/%s/data=%s/uo=%s", st.Kind, known, dsig, st.Uo)
 	if st.Uo == "nil" && !d.uoBool {
 		d.sig += ",false"
